@@ -8,6 +8,7 @@ use core::ops::*;
 pub fn lin<L>()
 where
     L: Fixed,
+    for<'a> &'a L: Shl<u32, Output = L> + Shr<u32, Output = L>,
     L::Bits: Raw,
 {
     let a = <L::Bits as Raw>::any();
@@ -43,6 +44,10 @@ where
     let s128: i128 = kani::any();
     assert!((wx << s8).0 == (x << ((s8 as u32) % w)) && (wx >> s64).0 == (x >> ((s64 as u32) % w)) && (wx << s128).0 == (x << ((s128 as u32) % w)),
         "shift by other integer types reduces the amount modulo the width");
+    // by-reference forms of the shift operators (left operand by reference, either operand by reference)
+    assert!((&wx << s).0 == (x << (s % w)) && (&wx >> s).0 == (x >> (s % w)) && (&wx << &s).0 == (x << (s % w)) && (wx >> &s).0 == (x >> (s % w)),
+        "by-reference shifts reduce the amount modulo the width of F");
+    assert!((&wx >> s64).0 == (x >> ((s64 as u32) % w)) && (&wx << &s8).0 == (x << ((s8 as u32) % w)), "by-reference shifts by other integer types");
     t = wx;
     t <<= s;
     t >>= &s8;
